@@ -78,16 +78,18 @@ Section Spec.
   Definition bip32_spec (K : G) (c : list N) (path : list N) : option ext_pub :=
     derive_rev K c (rev path).
 
-  (** serialisation (meaningful when e_depth < 256 -- one byte) *)
+  (** serialisation; the depth field is one byte, so keys below level 255 have none *)
   Definition serialize_ext (version : N) (e : ext_pub) : list N :=
     ser32 version ++ [e_depth e] ++ e_fingerprint e ++ ser32 (e_child_number e)
       ++ e_chain_code e ++ serP (e_key e).
 
   Definition checksum (payload : list N) : list N := firstn 4 (sha256 (sha256 payload)).
 
-  Definition spec_string (version : N) (e : ext_pub) (base58 : bool) : list N :=
-    let s := serialize_ext version e in
-    if base58 then base58_encode (s ++ checksum s) else hex_encode s.
+  Definition spec_string (version : N) (e : ext_pub) (base58 : bool) : option (list N) :=
+    if e_depth e <? 256 then
+      let s := serialize_ext version e in
+      Some (if base58 then base58_encode (s ++ checksum s) else hex_encode s)
+    else None.
 
   (** the I_L of the step from [par] to child [i] (to name the I_L = n boundary on which the code
       and the BIP differ) *)
